@@ -283,7 +283,7 @@ func TestC10(t *testing.T) {
 	dual := c10Dual.On(col, "rapid: generated conditions (comparisons, contains, and/or, truthiness of any value, filtered values, conditions that fail: error-returning filter, division by zero) with random spacing; metamorphic oracle: {% if c %}A{% else %}B{% endif %} and {% unless c %}B{% else %}A{% endunless %} render identically (both fail or equal bytes). Non-trivial: both render; distinct by condition+bindings", false)
 	prof := hx.FullProfile()
 	prof.Failing, prof.Ticks = true, true
-	col.Rapid(dual.Sub, env.PerShard(env.Pick(20000, 1000000)), func(t *rapid.T) {
+	col.Rapid(dual.Sub, env.PerShard(env.Pick(150000, 1500000)), func(t *rapid.T) {
 		c := &c10DualCase{Cond: hx.GenCond(t, prof, rapid.IntRange(0, 3).Draw(t, "depth")), Binds: hx.GenBindings(t, prof), Sp: hx.GenSpacing(t, "sp")}
 		if v := dual.Run(c); v != nil {
 			t.Fatalf("%s", v.Message)
@@ -293,7 +293,7 @@ func TestC10(t *testing.T) {
 	progs := c10Model.On(col, "rapid: conditional programs (1..6 branches, nested to depth 4, mixed with loops, assigns and captures) whose conditions are generated expressions, some passing through a counting filter and some failing; oracle: reference interpreter output, error iff an evaluated condition fails, number of evaluated counting filters within the model's bounds. Non-trivial: specified output and at least one conditional; distinct by template+bindings", false)
 	prof2 := hx.FullProfile()
 	prof2.Failing, prof2.Ticks, prof2.MaxDepth, prof2.MaxNodes = true, true, 4, 18
-	col.Rapid(progs.Sub, env.PerShard(env.Pick(20000, 1000000)), func(t *rapid.T) {
+	col.Rapid(progs.Sub, env.PerShard(env.Pick(150000, 1500000)), func(t *rapid.T) {
 		c := &progCase{P: hx.GenProgram(t, prof2), Sp: hx.GenSpacing(t, "sp")}
 		if v := progs.Run(c); v != nil {
 			t.Fatalf("%s", v.Message)
